@@ -13,7 +13,7 @@ var coseLabelTypes = []string{"int", "int8", "int16", "int32", "int64", "uint", 
 // innerSignGates: every fallible step of the format-level Sign (skeleton)
 // guards the success return; error => no bytes.
 func innerSignGates(c *Check, f format) {
-	pg := c.skeleton(f.method("Sign"))
+	pg := c.signSkeleton(f)
 	if pg == nil {
 		return
 	}
@@ -223,7 +223,7 @@ func localSignerRules(c *Check, rule string) {
 // without an error; a payload that is not a JSON object must not be signed, so
 // after the decode every success path tests the decoded map for nil.
 func jwsPayloadIsObject(c *Check, f format) {
-	sk := c.skeleton(f.method("Sign"))
+	sk := c.signSkeleton(f)
 	if sk == nil {
 		return
 	}
